@@ -193,9 +193,6 @@ func c06Probe(pw *vh.PoolWorld, cast *vh.Cast, now int64, honoured vh.Call) stri
 		resp, err := vh.NewCall("vipnode_peer", C2, now+n, pool.PeerRequest{Num: 3}).Invoke(pw, vh.CtxWith(pw.Host("probe").Service()))
 		fmt.Fprintf(&b, "%s: peers=%s err=%v calls=%s remotes=%d | ", tag, vh.ShortJSON(resp), err, pw.CallLog(), pw.Pool.NumRemotes())
 	}
-	// the victim's last honoured request, submitted again: still a replay
-	_, rerr := honoured.Invoke(pw, vh.CtxWith(pw.Host("x").Service()))
-	fmt.Fprintf(&b, "replay of the honoured %s refused=%v | ", honoured.Endpoint, vh.IsRefused(rerr))
 	pw.Store.SetNode(store.Node{ID: store.NodeID(C2.NodeID), Kind: "geth", LastSeen: vsched.Now()})
 	ask("peer", 2000)
 	err := pw.Pool.CloseRemote(pw.Host("attacker-conn").Service())
@@ -204,6 +201,10 @@ func c06Probe(pw *vh.PoolWorld, cast *vh.Cast, now int64, honoured vh.Call) stri
 	vsched.Advance(30 * time.Second)
 	_, err = vh.NewCall("vipnode_update", C1, now+2002, vh.DefaultParam("vipnode_update", cast.ByName["H1"].NodeID)).Invoke(pw, vh.CtxWith(pw.Host("x").Service()))
 	fmt.Fprintf(&b, "keep-alive err=%v state=%s", err, poolDigest(pw, cast))
+	// last (it is itself a refused request): the victim's last honoured request, submitted again, is
+	// still a replay
+	_, rerr := honoured.Invoke(pw, vh.CtxWith(pw.Host("x").Service()))
+	fmt.Fprintf(&b, " | replay of the honoured %s refused=%v", honoured.Endpoint, vh.IsRefused(rerr))
 	return b.String()
 }
 
